@@ -738,8 +738,11 @@ Definition elem_ok (in_p : bool) (n : bytes) (void : bool) : bool :=
   | Some k => Bool.eqb (kind_void k) void && negb (in_p && closes_p k)
   end.
 
-(** an inert subtree: what its own markup parses to (no adjacent / empty text, only <!> comments) *)
-Fixpoint inert_ok (in_p : bool) (d : dom) : bool :=
+(** a DOM subtree that is the parse of its own serialisation: known element names, void elements
+    childless, nothing that closes an open <p> inside a <p>, parseable attributes, no empty text, no
+    two adjacent text nodes, only empty comments (also: what an inert static subtree must be) *)
+Definition is_text_node (d : dom) : bool := match d with DText _ => true | _ => false end.
+Fixpoint node_ok (in_p : bool) (d : dom) : bool :=
   match d with
   | DText s => text_ok s && negb (match s with [] => true | _ => false end)
   | DComment s => match s with [] => true | _ => false end
@@ -753,10 +756,15 @@ Fixpoint inert_ok (in_p : bool) (d : dom) : bool :=
                    match l with
                    | [] => true
                    | k' :: l =>
-                       let t := match k' with DText _ => true | _ => false end in
-                       negb (prev_text && t) && inert_ok (in_p || bytes_eqb n s_p) k' && go l t
+                       negb (prev_text && is_text_node k')
+                       && node_ok (in_p || bytes_eqb n s_p) k' && go l (is_text_node k')
                    end) ks false)
       end
+  end.
+Fixpoint forest_ok (in_p : bool) (l : list dom) (prev_text : bool) : bool :=
+  match l with
+  | [] => true
+  | k :: l => negb (prev_text && is_text_node k) && node_ok in_p k && forest_ok in_p l (is_text_node k)
   end.
 
 (** [wf in_p v]: the view only uses element names of the modelled subset, void-ness as the
@@ -774,7 +782,7 @@ Fixpoint wf (in_p : bool) (v : view) {struct v} : bool :=
   | VTuple vs => negb (match vs with [] => true | _ => false end) && all in_p vs
   | VSome v | VLeft v | VRight v | VAny v => wf in_p v
   | VVec vs | VKeyed vs => all in_p vs
-  | VInert e => match e with DElem _ _ _ => inert_ok in_p e | _ => false end
+  | VInert e => match e with DElem _ _ _ => node_ok in_p e | _ => false end
   end.
 Fixpoint wf_seq (b : bool) (l : list view) : bool :=
   match l with [] => true | v :: l => wf b v && wf_seq b l end.
